@@ -104,7 +104,8 @@ type Replica struct {
 // Runner owns the replicas of one history. Replica 0 is the leader: its dumps
 // feed the decoded state; the optional scout answers admission queries.
 type Runner struct {
-	ByzPct  int // share (percent) of mempool-refused transactions a byzantine proposer includes anyway
+	Gossip  bool // every replica runs CheckTx on every submitted transaction before the block
+	ByzPct  int  // share (percent) of mempool-refused transactions a byzantine proposer includes anyway
 	W       *world.World
 	Dir     string
 	Keyring string
@@ -252,6 +253,15 @@ func (r *Runner) Step(p Plan) (*Block, error) {
 		rci := rc
 		if i == 0 {
 			rci.Dump = true
+		}
+		if r.Gossip {
+			// as on a real node, every submitted transaction (admitted or not) passes this node's
+			// mempool check before the block that may carry it arrives
+			var all [][]byte
+			for _, s := range p.Txs {
+				all = append(all, s.Bytes)
+			}
+			rci.Inject = map[string][][]byte{"before:BeginBlock": all}
 		}
 		var use *proto.Recipe = &rci
 		if p.PerReplica != nil {
